@@ -15,6 +15,7 @@ MUTS = [
  ("M12 serial cb does not wait for the field (next started eagerly)", "execution/executor.py", "                return self.runtime.map_value(\n                    self.resolve_field(parent_type, root, f, n, path + [k]), cb\n                )", "                pending_value = self.resolve_field(parent_type, root, f, n, path + [k])\n                nxt = _next()\n                return self.runtime.map_value(\n                    pending_value, lambda v: (resolved_fields.__setitem__(k, v), nxt)[1]\n                )", ["C09"]),
 ]
 MUTS.append(("S1 seeded C08-a: gather_futures fast path for settled siblings", None, "/verif/seeded/C08-a/patch.diff", None, ["C08"]))
+MUTS.append(("S3 seeded C08-b: generic complete_non_nullable_value checks only a null *resolved* value", None, "/verif/seeded/C08-b/patch.diff", None, ["C08"]))
 MUTS.append(("S2 seeded C09-a: execute() dispatches on root_type identity", None, "/verif/seeded/C09-a/patch.diff", None, ["C09"]))
 only = sys.argv[1:]
 env = dict(os.environ, PYGQL_REPO=WT)
